@@ -41,7 +41,7 @@ def result_shapes(node: dict, arg_shapes: list[tuple]) -> list[tuple]:
     """Shapes of the results of `node` (one entry, or several for multi-output ops)."""
     op = node["op"]
     a = tuple(arg_shapes[0])
-    if op in UNARY or op in ("detach", "novmap"):
+    if op in UNARY or op in ("detach", "novmap", "userfn"):
         return [a]
     if op in BINARY:
         return [a]
@@ -203,7 +203,7 @@ def _dual_op(node, args, N):
         return [(-v, -t)]
     if op == "scale":
         return [(node["c"] * v, node["c"] * t)]
-    if op == "novmap":
+    if op in ("novmap", "userfn"):
         return [(2.0 * v, 2.0 * t)]
     if op == "detach":
         return [(v, np.zeros_like(t))]
@@ -300,6 +300,32 @@ def novmap_function():
     return _NOVMAP
 
 
+_USERFN = None
+
+
+def user_function():
+    """A user-defined autograd.Function (vmap-compatible backward). Its backward node is the ctx object, which here
+    carries attributes whose names also exist on built-in nodes (`variable` on AccumulateGrad): graph traversals must
+    recognise nodes by what they are, not by an attribute they happen to have."""
+    global _USERFN
+    if _USERFN is None:
+        import torch
+
+        class UserFn(torch.autograd.Function):
+            @staticmethod
+            def forward(ctx, x):
+                ctx.variable = torch.zeros(3)  # an unrelated tensor stored by the user under this name
+                ctx.scale = 2.0
+                return 2.0 * x
+
+            @staticmethod
+            def backward(ctx, g):
+                return ctx.scale * g
+
+        _USERFN = UserFn
+    return _USERFN
+
+
 class TorchGraph:
     def __init__(self, prog: dict):
         import torch
@@ -364,6 +390,8 @@ class TorchGraph:
             return node["c"] * x
         if op == "novmap":
             return novmap_function().apply(x)
+        if op == "userfn":
+            return user_function().apply(x)
         if op == "detach":
             return x.detach()
         if op in BINARY:
@@ -487,7 +515,7 @@ class _Builder:
             if op == "scale":
                 node["c"] = draw(st.sampled_from([-2.0, -0.5, 0.5, 1.5, 3.0]))
             return self.add_node(node, [x])
-        if op in ("detach", "novmap"):
+        if op in ("detach", "novmap", "userfn"):
             return self.add_node({"op": op}, [x])
         if op in BINARY:
             y = self.pick(pred)
@@ -577,7 +605,7 @@ class _Builder:
 
 DEFAULT_OPS = (
     list(UNARY) + ["mul", "mul", "add", "sub", "sum", "mean", "sumall", "reshape", "permute", "unsqueeze", "squeeze", "expand",
-                   "select", "narrow", "cat", "stack", "unbind", "split", "detach"]
+                   "select", "narrow", "cat", "stack", "unbind", "split", "detach", "userfn"]
 )
 
 
@@ -609,7 +637,7 @@ def programs(draw, max_leaves=4, max_nodes=8, max_outputs=3, ops=DEFAULT_OPS, dt
     return {"dtype": dtype, "leaves": b.leaves, "nodes": b.nodes, "outputs": outputs}
 
 
-HEAD_OPS = list(UNARY) + ["mul", "mul", "add", "sub", "sum", "mean", "sumall", "reshape", "select", "narrow", "unsqueeze"]
+HEAD_OPS = list(UNARY) + ["mul", "mul", "add", "sub", "sum", "mean", "sumall", "reshape", "select", "narrow", "unsqueeze", "userfn"]
 
 
 @st.composite
